@@ -155,6 +155,18 @@ PROPS["C09"] = {
     "expect_probes": ["lfht.resize_returned", "pthread_create_eagain", "getcpu_migrate"],
 }
 
+PROPS["C08"] = {
+    "level": "exploration",
+    "scenarios": {"lfht_seq": {"quick": 120000, "thorough": 3000000, "thorough_time": 1200}},
+    "rule": "one evaluation = one seeded sequence of 5-60 cds_lfht operations (add, add_unique, add_replace, replace incl. -EINVAL and -ENOENT cases, del incl. double del, lookup, duplicate walk, first/next, "
+            "count_nodes, resize to 0/1/powers of two/non powers/above max/ULONG_MAX, destroy) on 8 keys with adversarial hashes, issued one at a time by 1-2 application threads taking turns, over "
+            "init 1..32, min_alloc 1..16 (incl. min > init), max 1..64/512/1024/0 (incl. max < init), all flag sets, order/chunk/mmap/default allocators, every flavor. After every operation the result is compared with a reference multimap "
+            "(duplicate results as relations). The schedule dimension is the library's own threads (resize worker, partition threads, call_rcu helper) with getcpu migration; runs without AUTO_RESIZE are plain seeded model-based tests inside the harness. "
+            "Non-trivial = library threads ran next to the application thread; distinct = distinct event-log fingerprints.",
+    "assumptions": COMMON_ASSUME + ["on an unbounded table (max_nr_buckets 0) explicit resize requests are kept <= 128 buckets: the library really tries to reach any requested size"],
+    "expect_probes": ["os.futex_wait_blocked", "getcpu_migrate"],
+}
+
 NOT_APPLICABLE = {}
 
 _SIM_NOTE = ("Trusted base: the usim runtime (scheduler, TSO model, simulated OS, tracked arena), gcc's access instrumentation, "
@@ -202,4 +214,8 @@ MANIFEST_TEXT = {
     "C09": {"design_ref": "3.9",
             "level_text": "Seeded exploration of resize requests of every size class concurrent with updates, with thread-creation and allocation faults; termination, content preservation, bucket bounds and safe teardown oracles.",
             "level_note": _SIM_NOTE},
+    "C08": {"design_ref": "3.8",
+            "level_text": "Seeded model-based comparison against a reference multimap over the whole configuration space, executed under the simulator so that the library's own worker threads are interleaved and faulted.",
+            "level_note": _SIM_NOTE + " The input dimension is sampled (seeded generation), not enumerated.",
+            "technique": "deterministic simulation (library worker threads interleaved by the seeded scheduler) driving a seeded model-based comparison with a reference multimap"},
 }
